@@ -8,6 +8,7 @@ LOG_RE = re.compile(r'^upipe_(log|err|warn|notice|dbg|verbose|info)(_va)?$')
 THROW_RE = re.compile(r'^upipe_(split_)?throw(_\w+)?$')
 CONV_RE = re.compile(r'^\w+_(to|from)_\w+$')
 OUTPUT_FEED = {'upipe_input', 'upipe_set_flow_def'}
+UPROBE_THROW = {'uprobe_throw_fatal', 'uprobe_throw_error', 'uprobe_throw', 'uprobe_throw_va'}
 
 
 class Throws:
@@ -60,6 +61,11 @@ class Throws:
         if not name or not args:
             return []
         a0 = args[0]
+        if name in UPROBE_THROW and len(args) > 1:
+            # upipe_throw_fatal / upipe_throw_error are macros over these
+            if self.same_pipe(fn, args[1], root, ldefs):
+                return [('throw:' + name, '%s at %s:%s' % (name, fn.file, x.get('l')))]
+            return []
         if name in OUTPUT_FEED:
             if self.is_output_field(a0):
                 b = strip_all_casts(a0).get('b')
